@@ -89,23 +89,24 @@ class TOpt(Ty):
 
     def sort(self):
         if self.name not in _DT_CACHE:
-            d = z3.Datatype('O_' + _mangle(self.name))
-            d.declare('none')
-            d.declare('some', ('val', self.inner.sort()))
+            m = _mangle(self.name)
+            d = z3.Datatype('O_' + m)
+            d.declare('none_' + m)
+            d.declare('some_' + m, ('val_' + m, self.inner.sort()))
             _DT_CACHE[self.name] = d.create()
         return _DT_CACHE[self.name]
 
     def none(self):
-        return self.sort().none
+        return self.sort().constructor(0)()
 
     def some(self, t):
-        return self.sort().some(t)
+        return self.sort().constructor(1)(t)
 
     def is_none(self, t):
-        return self.sort().is_none(t)
+        return self.sort().recognizer(0)(t)
 
     def val(self, t):
-        return self.sort().val(t)
+        return self.sort().accessor(1, 0)(t)
 
 
 class TList(Ty):
@@ -115,19 +116,20 @@ class TList(Ty):
 
     def sort(self):
         if self.name not in _DT_CACHE:
-            d = z3.Datatype('L_' + _mangle(self.name))
-            d.declare('mk', ('arr', z3.ArraySort(z3.IntSort(), self.elem.sort())), ('n', z3.IntSort()))
+            m = _mangle(self.name)
+            d = z3.Datatype('L_' + m)
+            d.declare('mk_' + m, ('arr_' + m, z3.ArraySort(z3.IntSort(), self.elem.sort())), ('n_' + m, z3.IntSort()))
             _DT_CACHE[self.name] = d.create()
         return _DT_CACHE[self.name]
 
     def mk(self, arr, n):
-        return self.sort().mk(arr, n)
+        return self.sort().constructor(0)(arr, n)
 
     def arr(self, t):
-        return z3.simplify(self.sort().arr(t)) if False else self.sort().arr(t)
+        return self.sort().accessor(0, 0)(t)
 
     def n(self, t):
-        return self.sort().n(t)
+        return self.sort().accessor(0, 1)(t)
 
 
 class TBag(Ty):
@@ -156,20 +158,21 @@ class TDict(Ty):
 
     def sort(self):
         if self.name not in _DT_CACHE:
-            d = z3.Datatype('D_' + _mangle(self.name))
-            d.declare('mk', ('has', z3.ArraySort(self.k.sort(), z3.BoolSort())),
-                      ('at', z3.ArraySort(self.k.sort(), self.v.sort())))
+            m = _mangle(self.name)
+            d = z3.Datatype('D_' + m)
+            d.declare('mk_' + m, ('has_' + m, z3.ArraySort(self.k.sort(), z3.BoolSort())),
+                      ('at_' + m, z3.ArraySort(self.k.sort(), self.v.sort())))
             _DT_CACHE[self.name] = d.create()
         return _DT_CACHE[self.name]
 
     def mk(self, has, at):
-        return self.sort().mk(has, at)
+        return self.sort().constructor(0)(has, at)
 
     def has(self, t):
-        return self.sort().has(t)
+        return self.sort().accessor(0, 0)(t)
 
     def at(self, t):
-        return self.sort().at(t)
+        return self.sort().accessor(0, 1)(t)
 
 
 class TRec(Ty):
@@ -179,16 +182,17 @@ class TRec(Ty):
 
     def sort(self):
         if self.name not in _DT_CACHE:
-            d = z3.Datatype('R_' + _mangle(self.name))
-            d.declare('mk', *[(f, t.sort()) for f, t in self.fields.items()])
+            m = _mangle(self.name)
+            d = z3.Datatype('R_' + m)
+            d.declare('mk_' + m, *[(f + '__' + m, t.sort()) for f, t in self.fields.items()])
             _DT_CACHE[self.name] = d.create()
         return _DT_CACHE[self.name]
 
     def mk(self, *terms):
-        return self.sort().mk(*terms)
+        return self.sort().constructor(0)(*terms)
 
     def get(self, f, t):
-        return getattr(self.sort(), f)(t)
+        return self.sort().accessor(0, list(self.fields).index(f))(t)
 
 
 class V:
